@@ -1,22 +1,23 @@
 CONSTANTS
   Dev_AdoptClientSecurity = FALSE
   Dev_IgnoreSigFailure = FALSE
-  Dev_TokenKeyLimits = TRUE
+  Dev_TokenKeyLimits = FALSE
   Dev_StatusSkipsVerify = FALSE
   Dev_CloseOnce = FALSE
   Dev_RecycledConfig = FALSE
   Dev_AdvertiseExtra = FALSE
   Dev_DropPolicy = ""
   Dev_WrongTokenPolicy = FALSE
-  SresSet = {"good", "goodsub", "uncertain", "bad"}
-  MaxAttempts = 1
+  SresSet = {"good"}
+  MaxAttempts = 4
   Histories = {"none"}
-  ConfigSet = "one"
+  ConfigSet = "seq"
   Scripted = TRUE
-  Intents = {"endpoint", "raw"}
-  DiagKeys = FALSE
-  Emit = "none"
+  Intents = {"endpoint"}
+  DiagKeys = TRUE
+  Emit = "seq"
 INIT Init
 NEXT Next
-INVARIANT InvInterop
+INVARIANT InvCleanAfterFailure
+INVARIANT InvEmit
 CHECK_DEADLOCK FALSE
